@@ -227,14 +227,18 @@ class ifdim(IfCommand):
         attrs = self.attributes
         relation = attrs['rel']
         a, b = attrs['a'], attrs['b']
+        # Dimensions are floating point here and integers of scaled points
+        # in TeX: two spellings of the same length (1cm and 10mm) may differ
+        # in their last bits, they are neither smaller nor larger
+        equal = abs(a - b) < 1e-6
         if relation == '<':
-            tex.processIfContent(a < b)
+            tex.processIfContent(a < b and not equal)
             return []
         elif relation == '>':
-            tex.processIfContent(a > b)
+            tex.processIfContent(a > b and not equal)
             return []
         elif relation == '=':
-            tex.processIfContent(a == b)
+            tex.processIfContent(equal)
             return []
         raise ValueError('"%s" is not a valid relation' % relation)
 
